@@ -132,28 +132,42 @@ func endToEnd(c *mon.Ctx, r *gen.Rand) {
 		return
 	}
 	withO := r.Bool()
-	e1 := af.SetHasPCR(true)
-	var e2 error
+	withP := withO && r.Chance(3) == false || !withO
+	if r.Chance(4) {
+		withP, withO = false, true // an OPCR without a PCR is legal and moves the field
+	}
+	var e1, e2 error
+	if withP {
+		e1 = af.SetHasPCR(true)
+	}
 	if withO {
 		e2 = af.SetHasOPCR(true)
+	}
+	if r.Chance(3) { // further optional fields behind the clock references
+		af.SetHasSplicingPoint(true)
+		af.SetSpliceCountdown(r.Byte())
 	}
 	if e1 != nil || e2 != nil {
 		c.Fail("e2e:af-setup", fmt.Sprintf("SetHasPCR/SetHasOPCR on an empty 182-byte adaptation field failed: %v %v", e1, e2), nil)
 		return
 	}
-	if err := af.SetPCR(v); err != nil {
-		c.Fail("e2e:setpcr", "SetPCR failed: "+err.Error(), wit{Op: "SetPCR", Value: v})
+	if withP {
+		if err := af.SetPCR(v); err != nil {
+			c.Fail("e2e:setpcr", "SetPCR failed: "+err.Error(), wit{Op: "SetPCR", Value: v})
+		}
 	}
 	if withO {
 		if err := af.SetOPCR(o); err != nil {
 			c.Fail("e2e:setopcr", "SetOPCR failed: "+err.Error(), wit{Op: "SetOPCR", Value: o})
 		}
 	}
-	if g, err := af.PCR(); err != nil || g != v {
-		c.Fail("e2e:pcr", fmt.Sprintf("PCR() after SetPCR(%d) = %d, %v", v, g, err), wit{Op: "PCR", Value: v, Got: fmt.Sprint(g)})
-	}
-	if b, err := adaptationfield.PCR(p); err != nil || ref.DecPCR(b) != v || !bytes.Equal(b, sl(ref.EncPCR(v))) {
-		c.Fail("e2e:pcr-func", fmt.Sprintf("adaptationfield.PCR bytes %x do not encode %d (%v)", b, v, err), wit{Op: "adaptationfield.PCR", Value: v, Got: mon.Hex(b)})
+	if withP {
+		if g, err := af.PCR(); err != nil || g != v {
+			c.Fail("e2e:pcr", fmt.Sprintf("PCR() after SetPCR(%d) = %d, %v", v, g, err), wit{Op: "PCR", Value: v, Got: fmt.Sprint(g)})
+		}
+		if b, err := adaptationfield.PCR(p); err != nil || ref.DecPCR(b) != v || !bytes.Equal(b, sl(ref.EncPCR(v))) {
+			c.Fail("e2e:pcr-func", fmt.Sprintf("adaptationfield.PCR bytes %x do not encode %d (%v)", b, v, err), wit{Op: "adaptationfield.PCR", Value: v, Got: mon.Hex(b)})
+		}
 	}
 	if withO {
 		if g, err := af.OPCR(); err != nil || g != o {
@@ -162,7 +176,7 @@ func endToEnd(c *mon.Ctx, r *gen.Rand) {
 		if b, err := adaptationfield.OPCR(p); err != nil || ref.DecPCR(b) != o {
 			c.Fail("e2e:opcr-func", fmt.Sprintf("adaptationfield.OPCR bytes %x do not encode %d (%v)", b, o, err), wit{Op: "adaptationfield.OPCR", Value: o, Got: mon.Hex(b)})
 		}
-		if g, _ := af.PCR(); g != v {
+		if g, _ := af.PCR(); withP && g != v {
 			c.Fail("e2e:pcr-after-opcr", "setting the OPCR changed the PCR", wit{Op: "PCR", Value: v, Got: fmt.Sprint(g)})
 		}
 	}
@@ -181,7 +195,7 @@ func endToEnd(c *mon.Ctx, r *gen.Rand) {
 	if h.PTSDTS == 3 && (!ph.HasDTS() || ph.DTS() != h.DTS) {
 		c.Fail("e2e:pes-dts", fmt.Sprintf("PES DTS read back %d, carried %d", ph.DTS(), h.DTS), wit{Op: "DTS", Value: h.DTS, Got: mon.Hex(hb)})
 	}
-	c.Class(fmt.Sprintf("e2e/opcr=%v/ptsdts=%d/pcrclass=%s", withO, h.PTSDTS, popclass(v>>36)))
+	c.Class(fmt.Sprintf("e2e/pcr=%v/opcr=%v/ptsdts=%d/pcrclass=%s", withP, withO, h.PTSDTS, popclass(v>>36)))
 }
 
 func sl(a [6]byte) []byte { return a[:] }
